@@ -57,6 +57,37 @@ Proof.
     injection H as <-. repeat split. now right.
 Qed.
 
+(* user code that panics inside the Debug impl of an ARGUMENT, while the runtime renders the call for the message of a mock error:
+   the call's effects on the counters and on the ordered index are those of the failing call, NOTHING is recorded for verification
+   (the user's panic leaves before handle_error), and it can only happen where the call would have ended in a mock error whose
+   message renders the call *)
+Theorem C11_debug_panic_effect : forall cfg s m a s',
+  debug_panics cfg s m a = Some s' ->
+  s' = fst (eval_raw hinfo N haccepts hdebug cfg s m a) /\ errs s' = errs s /\
+  exists e, snd (eval_raw hinfo N haccepts hdebug cfg s m a) = OutErr e /\ renders_call e = true.
+Proof.
+  intros cfg s m a s' H. unfold debug_panics in H. destruct (dbg_panicky m a); [|discriminate].
+  pose proof (eval_raw_errs hinfo N haccepts hdebug cfg s m a) as He.
+  destruct (eval_raw hinfo N haccepts hdebug cfg s m a) as [s1 o] eqn:E. destruct o; try discriminate.
+  destruct (renders_call e) eqn:R; [|discriminate]. injection H as <-. cbn [fst snd] in *.
+  repeat split; [exact He|]. exists e. split; [reflexivity|exact R].
+Qed.
+
+(* ... and the observed call is ONE panic, the user's: the world keeps every instance as it was *)
+Theorem C11_debug_panic_is_the_only_panic : forall w x i m a it s',
+  live_inst w i = Some it -> matcher_panics (w_cfg w) (w_state w) m a = None ->
+  debug_panics (w_cfg w) (w_state w) m a = Some s' ->
+  step w {| ev_ctx := x; ev_base := BCallM i m a |} = (set_state w s', "P:user:debug"%string).
+Proof.
+  intros w x i m a it s' Hl Hm Hd. unfold step, step_core, releasing. cbn [ev_base ev_ctx]. rewrite Hl, Hm, Hd. reflexivity.
+Qed.
+
+(* non-vacuity of the two: an ordered pattern whose slot is taken by a call that is then rejected *)
+Example C11_debug_panic_nonvacuous :
+  exists cfg, assemble hinfo cfg_std FbError [TCall 40 NextCall (Pt (Some 255) None [OReturns 1])] = Some (inl cfg) /\
+    exists s', debug_panics cfg init_state 40 13 = Some s' /\ next_ord s' = 1 /\ errs s' = [].
+Proof. eexists. split; [vm_compute; reflexivity|]. eexists. vm_compute. repeat split; reflexivity. Qed.
+
 (* non-vacuity: an original with an unmet expectation and a live clone, owned by a
    scope in which a call panics: one panic is reported, not two *)
 Example C11_nonvacuous :
